@@ -91,7 +91,13 @@ def regStep (reread publishFirst : Bool) (r : Reg) : RegStep → Reg
     | .initialized => r
   | .handlePush =>
     match r.phase, r.queued with
-    -- `computeProxyState`: `proxy.LastPushContext = push` - an assignment, not a maximum
+    -- `computeProxyState`: `proxy.LastPushContext = push` - an assignment, not a maximum.
+    -- Not modelled: `pushConnection` skips `computeProxyState` when every key of `ConfigsUpdated` is
+    -- `kind.Endpoints`: the proxy then keeps the previous `LastPushContext` although a newer snapshot
+    -- was published, so `lpc = global` does not hold literally after such a push.  The snapshot of an
+    -- endpoints-only push differs from its predecessor in nothing a generator reads through
+    -- `LastPushContext` (endpoints are read live from the endpoint index), so `global` is to be read as
+    -- "the newest snapshot up to endpoints-only successors".
     | .initialized, some g => { r with lpc := g, queued := none }
     | _, _ => r
 
@@ -113,6 +119,7 @@ structure Boot where
 
 inductive BootStep
   | load           -- an informer delivers one more object: the cache grows, `ConfigUpdate` is called
+                   -- (limit of the model: an object that reaches a cache WITHOUT a `ConfigUpdate` cannot be expressed)
   | push           -- the debounced `Push`: a new push context is initialised from the caches and published
   | markReady      -- bootstrap: `waitForCacheSync` (caches synced, every update so far committed), then `CachesSynced()`
   | connect        -- a proxy calls `Stream` / `StreamDeltas`
